@@ -479,7 +479,12 @@ func Datetime(errBuf *strings.Builder, validName, objName, fieldName string, tv 
 	_, val, cusMsg := ParseValidNameKV(validName)
 	defaultSplit := []string{"-", " ", ":"}
 	if val != "" {
-		for i, split := range strings.Split(strings.Trim(val, "'"), ",") {
+		splits := strings.Split(strings.Trim(val, "'"), ",")
+		if len(splits) > len(defaultSplit) { // 最多支持 3 个分隔符
+			errBuf.WriteString(GetJoinFieldErr(objName, fieldName, defaultTargetTag+" \"datetime\" is not ok, it supports up to 3 separators, eg: datetime='/, ,:'"))
+			return
+		}
+		for i, split := range splits {
 			defaultSplit[i] = split
 		}
 	}
